@@ -3,6 +3,7 @@
 -/
 import HSModel.Proofs.StepLemmas
 import HSModel.Proofs.RefineAll
+import HSModel.Proofs.Inert
 namespace HS.C17
 open Abs
 variable (cfg : Config) (o : Oracle)
@@ -212,5 +213,28 @@ theorem concrete_readonly_no_change (st : Store) (log : List Eff) (a : Abs) (hs 
   · rw [(retrieve_refines cfg o st log a pid hs ho.inj).1]
   · rw [(rmeta_refines cfg o st log a pid x hs).1]
   · rw [(hex_refines cfg o st log a pid x hs ho.inj).1]
+
+/-- **Read-only calls change nothing, however they interleave.** Any number of threads running
+    `retrieve_object`, `retrieve_metadata` and `get_hex_digest` with any arguments, from any world
+    (any fault plan), every schedule, every granularity: after every step the directory and the four
+    lock lists are exactly as at the start. -/
+theorem readers_change_nothing_under_every_interleaving (calls : List Call) (hc : ∀ c ∈ calls, ReadOnly c)
+    (w0 : World) (fuel : Nat) (sched : List Nat) (n : Nat) :
+    let cf := (runSchedule fuel { w := w0, ts := calls.map (fun c => TState.fresh (c.prog cfg o)) } sched n).1
+    cf.w.st = w0.st ∧ cf.w.lk = w0.lk := by
+  intro cf
+  have h0 : SafeConf Inert (fun _ _ => True) (fun w => w.st = w0.st ∧ w.lk = w0.lk) (fun _ _ => True)
+      { w := w0, ts := calls.map (fun c => TState.fresh (c.prog cfg o)) } := by
+    refine ⟨⟨rfl, rfl⟩, ?_⟩
+    intro i t hi
+    simp only at hi
+    rw [List.getElem?_map] at hi
+    cases hci : calls[i]? with
+    | none => rw [hci] at hi; cases hi
+    | some c =>
+      rw [hci] at hi; cases hi
+      exact Prog.safe_of_allEv _ (readOnly_inert cfg o c (hc c (List.mem_of_getElem? hci)))
+  exact (safe_schedule (inert_preserved w0.st w0.lk) (fun _ _ _ => trivial) _ fuel sched _ n h0).1
+
 
 end HS.C17
